@@ -3,6 +3,9 @@ Sync.tla: every shared field access of the handle / op-node / leaf machinery as 
 annotated with the locks the code holds; TLC interleaves 2-3 client threads and checks the
 lockset discipline (NoDataRace) and deadlock freedom; the 'pinned' variant (NumLeaves and the
 cancellation poison loop touching cache_ without the guard) is refuted - finding F5.
+Lifetime.tla: OWNERSHIP of the shared lazy sub-node while threads evaluate through copies of the
+handles (own handle mutex, shared nodes): TLC checks NoUseAfterFree/FreedIffUnowned/NoLeakAtEnd;
+the variant Walk="raw" (NumLeaves queues a raw CsgOpNode*) is refuted - finding F24.
 Binding: client programs over the same menu of calls (the projection of Sync.tla behaviours:
 who calls what on which shared object) are executed by real threads in a ThreadSanitizer build
 of the serial backend (every synchronisation visible to TSan) with seeded start skew; a TSan
@@ -21,6 +24,12 @@ def gen_cases(rnd, n, tier):
     cases.append({'threads': [[['statusctx', 'H1'], ['copy', 'H1']], [['statusctx', 'H2'], ['mesh', 'H1']], [['copy', 'H2'], ['reserve'], ['assignfrom', 'H2']]]})
     cases.append({'threads': [[['mesh', 'H1'], ['assignfrom', 'H2'], ['mesh', 'HL']], [['mesh', 'H2'], ['translate', 'HL']], [['copy', 'H1'], ['volume', 'HL'], ['translate', 'H2']]]})
     cases.append({'threads': [[['statusshared', 'H1']], [['mesh', 'H2'], ['cancel'], ['progress']]], 'cancels': True})
+    # the MCLifetime.tla programs, projected: evaluations through COPIES of the handles (own handle mutex, shared nodes),
+    # one of them carrying a context (NumLeaves walk) - the window is narrow, so many repetitions
+    lr = 40 if tier == 'quick' else 300
+    cases.append({'reps': lr, 'threads': [[['statusctx', 'H1']], [['copy', 'H2'], ['copy', 'H1']]]})
+    cases.append({'reps': lr, 'threads': [[['statusctx', 'H1'], ['copy', 'H2']], [['statusctx', 'H2']], [['copy', 'H1'], ['statusctx', 'H2']]]})
+    cases.append({'reps': lr, 'threads': [[['statusctx', 'H1']], [['statusctx', 'H1']], [['copy', 'H2'], ['volume', 'H1']], [['copy', 'H1']]]})
     # first lazily evaluating call on the lazily transformed leaf from 4 threads at once
     cases.append({'shared': 'big', 'threads': [[['bbox', 'HL']], [['numtri', 'HL']], [['copy', 'HL']], [['mesh', 'HL']]]})
     # disjoint union (Compose) evaluated while IDs are reserved / other meshes imported
@@ -63,7 +72,16 @@ def main(tier):
         if r.violation: raise vf.ToolError('%s: %s violated in the model\n%s' % (c, r.violation, r.out[-1500:]))
     for (m, c, _), r in zip(jobs[3:], res[3:]):
         if r.violation != 'NoDataRace': raise vf.ToolError('%s: the pinned variant is no longer refuted' % c)
-    chk.coverage['states'] = sum(r.distinct for r in res[:3]); chk.coverage['transitions'] = sum(r.generated for r in res[:3])
+    ljobs = [('MCLifetime', 'Lifetime_%s.cfg' % c, {}) for c in ('two_owning', 'three_owning', 'plain_raw', 'two_raw', 'three_raw')]
+    lres = vf.tlc_many(ljobs, parallel=5)
+    for (m, c, _), r in zip(ljobs[:3], lres[:3]):
+        vf.tlc_ok(r, c)
+        if r.violation: raise vf.ToolError('%s: %s violated in the model\n%s' % (c, r.violation, r.out[-1500:]))
+    for (m, c, _), r in zip(ljobs[3:], lres[3:]):
+        if r.violation != 'NoUseAfterFree': raise vf.ToolError('%s: the raw-pointer NumLeaves walk is no longer refuted' % c)
+    chk.coverage['lifetime_model'] = {'states': sum(r.distinct for r in lres[:3]),
+                                      'prediction': 'Walk="raw" (NumLeaves queues a const CsgOpNode*) refuted by TLC: NoUseAfterFree (F24); Walk="owning" holds; without a context (NumLeaves never runs) even "raw" holds'}
+    chk.coverage['states'] = sum(r.distinct for r in res[:3]) + sum(r.distinct for r in lres[:3]); chk.coverage['transitions'] = sum(r.generated for r in res[:3]) + sum(r.generated for r in lres[:3])
     chk.coverage['model_prediction'] = 'Variant="pinned" (unguarded cache_ access in NumLeaves / poison loop) refuted by TLC: NoDataRace (F5)'
     rnd = random.Random(vf.seed())
     cases = gen_cases(rnd, 10 if tier == 'quick' else 150, tier)
@@ -88,8 +106,8 @@ def main(tier):
         seen.add((kind, site))
         chk.violation('tsan|%s|%s' % (kind, site), 'ThreadSanitizer: %s at %s\n%s' % (kind, site, blk[:1500]), {'report': blk, 'cases': 'all cases of this run'})
     chk.coverage.update({
-        'traces_validated_against_impl': len(results) * reps,
-        'evaluations': len(results) * reps, 'distinct_nontrivial': sum(1 for r in results.values() if r.get('nontrivial')),
+        'traces_validated_against_impl': sum(json.loads(cases[i]).get('reps', reps) for i in results),
+        'evaluations': sum(json.loads(cases[i]).get('reps', reps) for i in results), 'distinct_nontrivial': sum(1 for r in results.values() if r.get('nontrivial')),
         'tsan_reports': len(seen),
         'rule': 'client programs: the MCSync.tla programs projected + seeded random programs (2-8 threads x 1-3 calls from the menu '
                 '%s on shared lazy objects H1/H2 (sharing a lazy sub-expression), HL (pending lazy transform), D (bbox-disjoint union), a lazy '
